@@ -9,8 +9,8 @@ Ltac red1 := cbn [ms mset tick mk fst snd om sT sP with_T with_P with_flows writ
                   set_other catch_noeq liq vap oth].
 
 (* ------------------------------------------------------------------ the thermal condition *)
-Lemma evals_v_ms' orc c pts : forall m vl, ms (fst (evals_v orc c pts m vl)) = ms m.
-Proof. induction pts as [|x t IH]; intros m vl; simpl; auto. rewrite IH. reflexivity. Qed.
+Lemma evals_v_ms' orc c isT a pts : forall m vl, ms (fst (evals_v orc c isT a pts m vl)) = ms m.
+Proof. exact (evals_v_ms c orc isT a pts). Qed.
 
 Lemma herr_eval_TP orc c T P m :
   sT (ms (fst (herr_eval orc c T P m))) = sT (ms m) /\ sP (ms (fst (herr_eval orc c T P m))) = sP (ms m).
@@ -53,15 +53,15 @@ Qed.
 Lemma set_XV_multi_spec orc c isT V m m' : set_XV_multi orc c isT V m = VOk m' ->
   if isT then sT (ms m') = sT (ms m) else sP (ms m') = sP (ms m).
 Proof.
-  unfold set_XV_multi, call_dew, call_bubble, solve_v. red1.
-  destruct (o_bubble orc (mk m)) as [Xb yb].
-  repeat brk; red1.
-  all: try (destruct (o_dew orc _) as [Xd xd]; red1).
+  unfold set_XV_multi, call_dew, call_bubble, solve_v. destruct isT; cbv zeta; red1.
+  all: destruct (o_bubble orc (mk m) _) as [Xb yb].
+  all: repeat brk; red1.
+  all: try (destruct (o_dew orc _ _) as [Xd xd]; red1).
   all: repeat brk; red1.
   all: try (destruct (o_iq orc _) as [pts X]; red1;
-            match goal with |- context [evals_v ?o ?c0 ?p0 ?m0 ?v0] =>
-              pose proof (evals_v_ms' o c0 p0 m0 v0) as E1;
-              destruct (evals_v o c0 p0 m0 v0) as [m1 v1] end; cbn [fst] in E1).
+            match goal with |- context [evals_v ?o ?c0 ?b0 ?a0 ?p0 ?m0 ?v0] =>
+              pose proof (evals_v_ms' o c0 b0 a0 p0 m0 v0) as E1;
+              destruct (evals_v o c0 b0 a0 p0 m0 v0) as [m1 v1] end; cbn [fst] in E1).
   all: intros E; inversion E; subst; red1; try rewrite E1; red1; reflexivity.
 Qed.
 
@@ -77,9 +77,9 @@ Proof.
     all: try (intros E; inversion E; subst; red1; auto; fail).
     + intros E; inversion E; subst; red1. destruct (tp_chemical_TP orc c (with_P (with_T s T) P) T P) as (A & B).
       rewrite A, B. red1. auto.
-    + destruct (o_dew orc (mk m)) as [Pd xd]; red1. repeat brk; red1.
+    + destruct (o_dew orc (mk m) _) as [Pd xd]; red1. repeat brk; red1.
       all: try (intros E; inversion E; subst; red1; auto; fail).
-      destruct (o_bubble orc _) as [Pb yb]; red1. repeat brk; red1.
+      destruct (o_bubble orc _ _) as [Pb yb]; red1. repeat brk; red1.
       all: intros E; inversion E; subst; red1; auto.
   - intros E; inversion E; subst; red1; auto.
   - destruct e; intros E; inversion E; subst; red1; auto.
@@ -117,8 +117,8 @@ Proof.
   unfold call_dew, call_bubble, call_xH.
   repeat brk; red1; try (intros E; inversion E; fail).
   all: try (apply th_chemical_T; fail).
-  all: destruct (o_dew orc (mk m)) as [Pd xd]; red1; repeat brk; red1; try (intros E; inversion E; fail).
-  all: destruct (o_bubble orc _) as [Pb yb]; red1; repeat brk; red1; try (intros E; inversion E; fail).
+  all: destruct (o_dew orc (mk m) _) as [Pd xd]; red1; repeat brk; red1; try (intros E; inversion E; fail).
+  all: destruct (o_bubble orc _ _) as [Pb yb]; red1; repeat brk; red1; try (intros E; inversion E; fail).
   all: destruct (o_iq orc _) as [pts Px]; red1; intros E; inversion E; subst; red1; reflexivity.
 Qed.
 
@@ -128,9 +128,9 @@ Proof.
   unfold set_PH. destruct (setup cf (ms m)) as [s c|s|e s]; red0; try (intros E; inversion E; fail).
   unfold call_dew, call_bubble, call_xH, call_solveT.
   repeat brk; red0; try (intros E; inversion E; subst; red0; try rewrite ph_chemical_P; reflexivity).
-  all: destruct (o_bubble orc (mk m)) as [Tb yb]; red0; repeat brk; red0;
+  all: destruct (o_bubble orc (mk m) _) as [Tb yb]; red0; repeat brk; red0;
        try (intros E; inversion E; subst; red0; reflexivity).
-  all: destruct (o_dew orc _) as [Td xd]; red0; repeat brk; red0;
+  all: destruct (o_dew orc _ _) as [Td xd]; red0; repeat brk; red0;
        try (intros E; inversion E; subst; red0; reflexivity).
   all: repeat match goal with
        | |- context [herr_eval ?o ?c0 ?T0 ?P0 ?m0] =>
@@ -153,9 +153,9 @@ Proof.
   unfold set_xy. destruct (setup cf (ms m)) as [s c|s|e s]; try (intros E; inversion E; fail).
   destruct (negb (cN c =? 2)); [intros E; inversion E|].
   unfold call_bubble, call_dew. destruct bubble; red1.
-  - destruct (o_bubble orc (mk m)) as [a y]; red1. intros E. apply lever_TP in E. cbn [ms mset tick mk fst snd om sT sP with_T with_P catch_noeq] in E.
+  - destruct (o_bubble orc (mk m) _) as [a y]; red1. intros E. apply lever_TP in E. cbn [ms mset tick mk fst snd om sT sP with_T with_P catch_noeq] in E.
     destruct E as (A & B). destruct specT; cbn [ms mset tick mk fst snd om sT sP with_T with_P catch_noeq] in A; cbn [ms mset tick mk fst snd om sT sP with_T with_P catch_noeq] in B; auto.
-  - destruct (o_dew orc (mk m)) as [a y]; red1. intros E. apply lever_TP in E. cbn [ms mset tick mk fst snd om sT sP with_T with_P catch_noeq] in E.
+  - destruct (o_dew orc (mk m) _) as [a y]; red1. intros E. apply lever_TP in E. cbn [ms mset tick mk fst snd om sT sP with_T with_P catch_noeq] in E.
     destruct E as (A & B). destruct specT; cbn [ms mset tick mk fst snd om sT sP with_T with_P catch_noeq] in A; cbn [ms mset tick mk fst snd om sT sP with_T with_P catch_noeq] in B; auto.
 Qed.
 
@@ -291,19 +291,19 @@ Proof. unfold nzb. rewrite negb_false_iff. apply qzerob_true. Qed.
 
 Lemma TP_boundary_lemma cf orc T P st s c : setup cf st = SOk s c -> (2 <= cN c)%nat ->
   let s0 := with_P (with_T s T) P in
-  let Pd := fst (o_dew orc 0) in
-  let Pb := fst (o_bubble orc 1) in
+  let Pd := fst (o_dew orc 0 T) in
+  let Pb := fst (o_bubble orc 1 T) in
   (P <= Pd /\ Fheavy c == 0 -> vle cf orc (SpTP T P) st = VOk (all_vap c s0)) /\
   (~ (P <= Pd /\ Fheavy c == 0) -> Pb <= P /\ Flight c == 0 -> vle cf orc (SpTP T P) st = VOk (all_liq c s0)) /\
   (~ (P <= Pd /\ Fheavy c == 0) -> ~ (Pb <= P /\ Flight c == 0) ->
-   forall st', vle cf orc (SpTP T P) st = VOk st' -> st' = set_flows c (clipv (o_v orc 2) (molv c)) s0).
+   forall st', vle cf orc (SpTP T P) st = VOk st' -> st' = set_flows c (clipv (o_v orc 2 T P) (molv c)) s0).
 Proof.
   intros E HN s0 Pd Pb.
   assert (N0 : Nat.eqb (cN c) 0 = false) by (apply Nat.eqb_neq; lia).
   assert (N1 : Nat.eqb (cN c) 1 = false) by (apply Nat.eqb_neq; lia).
   unfold vle, vle_call, set_TP. cbn [ms mk]. rewrite E. cbn [ms mset mk]. rewrite N0, N1.
   unfold call_dew, call_bubble, solve_v. cbn [ms mset mk tick fst snd].
-  subst Pd Pb. destruct (o_dew orc 0) as [Pd xd]. destruct (o_bubble orc 1) as [Pb yb]. cbn [fst snd ms mset mk tick].
+  subst Pd Pb. destruct (o_dew orc 0 T) as [Pd xd]. destruct (o_bubble orc 1 T) as [Pb yb]. cbn [fst snd ms mset mk tick].
   fold s0.
   destruct (qleb P Pd && negb (nzb (Fheavy c))) eqn:C1.
   - apply andb_prop in C1. destruct C1 as (A & B). apply qleb_true in A. apply negb_true_iff in B. apply nzb_false_iff in B.
@@ -320,62 +320,79 @@ Proof.
 Qed.
 
 (* ------------------------------------------------------------------ P,V / T,V: what the bracketing branch writes *)
-Lemma evals_v_last orc c pts : forall m vl,
-  mk (fst (evals_v orc c pts m vl)) = (mk m + length pts)%nat /\
-  snd (evals_v orc c pts m vl) =
-    match pts with [] => vl | _ :: _ => clipv (o_v orc (mk m + length pts - 1)%nat) (molv c) end.
+(* one evaluation of _V_err_at_P (T,V: at the specified T and the pressure x) / _V_err_at_T (P,V) *)
+Definition xv_eval (orc : oracle) (c : ctx) (isT : bool) (a : Q) (t : nat) (x : Q) : vec :=
+  clipv (if isT then o_v orc t a x else o_v orc t x a) (molv c).
+Definition xv_a (isT : bool) (m : mach) : Q := if isT then sT (ms m) else sP (ms m).
+(* the (shifted) bubble / dew bounds of the bracket *)
+Definition xv_Xb (orc : oracle) (c : ctx) (a : Q) (k : nat) : Q :=
+  let X := fst (o_bubble orc k a) in if nzb (Flight c) then c_01 * o_lim_light orc + c_09 * X else X.
+Definition xv_Xd (orc : oracle) (c : ctx) (a : Q) (k : nat) : Q :=
+  let X := fst (o_dew orc (S k) a) in if nzb (Fheavy c) then c_01 * o_lim_heavy orc + c_09 * X else X.
+
+Lemma evals_v_last orc c isT a pts : forall m vl,
+  mk (fst (evals_v orc c isT a pts m vl)) = (mk m + length pts)%nat /\
+  snd (evals_v orc c isT a pts m vl) =
+    match pts with [] => vl | _ :: _ => xv_eval orc c isT a (mk m + length pts - 1)%nat (last pts 0) end.
 Proof.
   induction pts as [|x t IH]; intros m vl; cbn [evals_v length fst snd].
   - split; [lia|reflexivity].
-  - unfold solve_v. destruct (IH (tick m) (clipv (o_v orc (mk m)) (molv c))) as (A & B).
+  - assert (S1 : (if isT then solve_v orc c a x m else solve_v orc c x a m) = (tick m, xv_eval orc c isT a (mk m) x))
+      by (unfold xv_eval, solve_v; destruct isT; reflexivity).
+    rewrite S1. destruct (IH (tick m) (xv_eval orc c isT a (mk m) x)) as (A & B).
     rewrite A, B. cbn [tick mk]. split; [lia|].
-    destruct t; cbn [length]; f_equal; f_equal; lia.
+    destruct t as [|y t]; [cbn [length last]; f_equal; lia|].
+    cbn [length]. replace (last (x :: y :: t) 0) with (last (y :: t) 0) by reflexivity. f_equal. lia.
 Qed.
 
 (* the vapour flows of the last _solve_v call before set_flows in the bracketing branch:
-   the last evaluation flexsolve made, or the dew-side evaluation if it made none *)
-Definition xv_last (orc : oracle) (c : ctx) (k : nat) : vec :=
+   the last evaluation flexsolve made (at its last evaluation point), or the dew-side evaluation if it made none *)
+Definition xv_last (orc : oracle) (c : ctx) (isT : bool) (a : Q) (k : nat) : vec :=
   match fst (o_iq orc (k + 4)%nat) with
-  | [] => clipv (o_v orc (k + 3)%nat) (molv c)
-  | pts => clipv (o_v orc (k + 4 + length pts)%nat) (molv c)
+  | [] => xv_eval orc c isT a (k + 3)%nat (xv_Xd orc c a k)
+  | pts => xv_eval orc c isT a (k + 4 + length pts)%nat (last pts 0)
   end.
 
 Lemma PV_flows_lemma orc c isT V0 m m' :
   let V := adj_V c V0 in
   let k := mk m in
-  let Vb := qsum (clipv (o_v orc (k + 2)%nat) (molv c)) / Fvle c in
-  let Vd := qsum (clipv (o_v orc (k + 3)%nat) (molv c)) / Fvle c in
+  let a := xv_a isT m in
+  let Vb := qsum (xv_eval orc c isT a (k + 2)%nat (xv_Xb orc c a k)) / Fvle c in
+  let Vd := qsum (xv_eval orc c isT a (k + 3)%nat (xv_Xd orc c a k)) / Fvle c in
   ~ V == 1 -> ~ V == 0 -> Vb <= V -> V <= Vd ->
   set_XV_multi orc c isT V0 m = VOk m' ->
-  ms m' = set_flows c (xv_last orc c k) (set_other isT (ms m) (snd (o_iq orc (k + 4)%nat))) /\
+  ms m' = set_flows c (xv_last orc c isT a k) (set_other isT (ms m) (snd (o_iq orc (k + 4)%nat))) /\
   mk m' = (k + 6 + length (fst (o_iq orc (k + 4)%nat)))%nat.
 Proof.
-  intros V k Vb Vd H1 H0 HB HD.
-  unfold set_XV_multi. fold V.
+  intros V k a Vb Vd H1 H0 HB HD. subst k.
+  unfold set_XV_multi. fold V. fold (xv_a isT m). fold a.
   assert (E1 : qeqb V 1 = false) by (destruct (qeqb V 1) eqn:E; auto; apply qeqb_true in E; contradiction).
   assert (E0 : qeqb V 0 = false) by (destruct (qeqb V 0) eqn:E; auto; apply qeqb_true in E; contradiction).
-  rewrite E1, E0. cbn [andb].
-  unfold call_bubble, call_dew, solve_v. cbn [ms mset mk tick fst snd].
-  destruct (o_bubble orc (mk m)) as [Xb yb]. destruct (o_dew orc (S (mk m))) as [Xd xd]. cbn [fst snd].
+  cbv zeta. rewrite E1, E0. cbn [andb].
+  unfold call_bubble, call_dew. cbn [ms mset mk tick fst snd].
+  unfold Vb, Vd, xv_last, xv_Xb, xv_Xd in *.
+  destruct (o_bubble orc (mk m) a) as [Xb yb]. destruct (o_dew orc (S (mk m)) a) as [Xd xd]. cbn [fst snd] in *.
   destruct (refresh_K_raises c V _ _); [intros E; inversion E|].
-  replace (S (S (S (S (mk m))))) with (k + 4)%nat by (unfold k; lia).
-  replace (S (S (S (mk m)))) with (k + 3)%nat by (unfold k; lia).
-  replace (S (S (mk m))) with (k + 2)%nat by (unfold k; lia).
-  fold Vb.
-  assert (C1 : qltb V Vb = false) by (apply qltb_false; exact HB). rewrite C1.
-  cbn [ms mset mk tick fst snd]. fold Vd.
-  assert (C2 : qltb Vd V = false) by (apply qltb_false; exact HD). rewrite C2.
-  unfold xv_last.
-  destruct (o_iq orc (k + 4)%nat) as [pts X] eqn:EQ. cbn [fst snd].
-  match goal with |- context [evals_v orc c pts ?m0 ?v0] =>
-    destruct (evals_v_last orc c pts m0 v0) as (A & B);
-    pose proof (evals_v_ms' orc c pts m0 v0) as C;
-    destruct (evals_v orc c pts m0 v0) as [m1 v1] end.
+  set (Xb' := if nzb (Flight c) then c_01 * o_lim_light orc + c_09 * Xb else Xb) in *.
+  set (Xd' := if nzb (Fheavy c) then c_01 * o_lim_heavy orc + c_09 * Xd else Xd) in *.
+  assert (S1 : forall x mm, (if isT then solve_v orc c a x mm else solve_v orc c x a mm) = (tick mm, xv_eval orc c isT a (mk mm) x))
+    by (intros; unfold xv_eval, solve_v; destruct isT; reflexivity).
+  rewrite S1. cbn [tick mk].
+  replace (S (S (mk m))) with (mk m + 2)%nat by lia.
+  assert (C1 : qltb V (qsum (xv_eval orc c isT a (mk m + 2) Xb') / Fvle c) = false) by (apply qltb_false; exact HB). rewrite C1.
+  rewrite S1. cbn [tick mk]. replace (S (S (S (S (mk m))))) with (mk m + 4)%nat by lia.
+  replace (S (S (S (mk m)))) with (mk m + 3)%nat by lia.
+  assert (C2 : qltb (qsum (xv_eval orc c isT a (mk m + 3) Xd') / Fvle c) V = false) by (apply qltb_false; exact HD). rewrite C2.
+  destruct (o_iq orc (mk m + 4)%nat) as [pts X] eqn:EQ. cbn [fst snd].
+  match goal with |- context [evals_v orc c isT a pts ?m0 ?v0] =>
+    destruct (evals_v_last orc c isT a pts m0 v0) as (A & B);
+    pose proof (evals_v_ms' orc c isT a pts m0 v0) as C;
+    destruct (evals_v orc c isT a pts m0 v0) as [m1 v1] end.
   cbn [fst snd mk tick ms mset] in A, B, C.
   intros E; inversion E; subst m'; clear E. cbn [ms mset tick mk].
   rewrite C. cbn [ms mset]. split.
-  - f_equal. rewrite B. destruct pts as [|p pts]; [reflexivity|]. cbn [length]. f_equal. f_equal. unfold k. lia.
-  - rewrite A. unfold k. lia.
+  - f_equal. rewrite B. destruct pts as [|p pts]; [reflexivity|]. cbn [length]. f_equal. lia.
+  - rewrite A. lia.
 Qed.
 
 (* ------------------------------------------------------------------ P,H: the correction reproduces H when H is linear in the flows *)
@@ -516,9 +533,9 @@ Proof.
   assert (N1 : Nat.eqb (cN c) 1 = false) by (apply Nat.eqb_neq; lia).
   unfold set_PH. rewrite E. red0. rewrite N0, N1.
   unfold call_dew, call_bubble, call_xH, call_solveT. red0.
-  destruct (o_bubble orc (mk m)) as [Tb yb]; red0.
+  destruct (o_bubble orc (mk m) _) as [Tb yb]; red0.
   repeat brk; red0; try (intros Q; inversion Q; subst; red0; left; eexists; eexists; eexists; reflexivity).
-  all: destruct (o_dew orc _) as [Td xd]; red0.
+  all: destruct (o_dew orc _ _) as [Td xd]; red0.
   all: repeat brk; red0; try (intros Q; inversion Q; subst; red0; left; eexists; eexists; eexists; reflexivity).
   all: repeat match goal with
        | |- context [herr_eval ?o ?c0 ?T0 ?P0 ?m0] =>
@@ -819,16 +836,17 @@ Qed.
 Lemma PV_flows_at_returned_point_lemma orc c isT V0 m m' pts :
   let V := adj_V c V0 in
   let k := mk m in
-  let Vb := qsum (clipv (o_v orc (k + 2)%nat) (molv c)) / Fvle c in
-  let Vd := qsum (clipv (o_v orc (k + 3)%nat) (molv c)) / Fvle c in
+  let a := xv_a isT m in
+  let Vb := qsum (xv_eval orc c isT a (k + 2)%nat (xv_Xb orc c a k)) / Fvle c in
+  let Vd := qsum (xv_eval orc c isT a (k + 3)%nat (xv_Xd orc c a k)) / Fvle c in
   ~ V == 1 -> ~ V == 0 -> Vb <= V -> V <= Vd ->
   fst (o_iq orc (k + 4)%nat) = pts -> pts <> [] -> snd (o_iq orc (k + 4)%nat) = last pts 0 ->
   set_XV_multi orc c isT V0 m = VOk m' ->
-  ms m' = set_flows c (clipv (o_v orc (k + 4 + length pts)%nat) (molv c)) (set_other isT (ms m) (last pts 0)).
+  ms m' = set_flows c (xv_eval orc c isT a (k + 4 + length pts)%nat (last pts 0)) (set_other isT (ms m) (last pts 0)).
 Proof.
-  intros V k Vb Vd H1 H0 HB HD EP NE EX H.
+  intros V k a Vb Vd H1 H0 HB HD EP NE EX H. subst k.
   destruct (PV_flows_lemma orc c isT V0 m m' H1 H0 HB HD H) as (A & _).
-  rewrite A. fold k. rewrite EX. unfold xv_last. fold k. rewrite EP.
+  rewrite A. fold a. rewrite EX. unfold xv_last. rewrite EP.
   destruct pts as [|p t]; [contradiction|]. reflexivity.
 Qed.
 
